@@ -173,6 +173,39 @@ theorem delta_seconds_large (s : Str) (d : Int) (h : parseDeltaSeconds s = some 
     unfold maxDeltaSeconds nsPerSec
     constructor <;> omega
 
+/-- … and the USE of such a number does not wrap either, for the request's min-fresh (the one numeric directive that
+    is ADDED to an age, not compared with one): whenever the hit path finds the response usable, what is left of its
+    lifetime is at least the demanded amount, computed in unbounded integers (the code subtracts two non-negative
+    int64 values, which cannot overflow; a seeded change of round 7 wrote `age + minFresh > life` with a plain `+`) -/
+theorem min_fresh_is_honoured (g : Glue) (now : Int) (e : Entry) (reqCC resCC : Directives) (f : Int)
+    (hf : reqCC.minFresh = some f) (hpos : 0 < f)
+    (hfresh : (calculateFreshness g now e reqCC resCC).isStale = false) :
+    f ≤ requestLifetime (responseLifetime g e resCC) reqCC - currentAge g now e := by
+  unfold calculateFreshness at hfresh
+  split at hfresh
+  · cases hfresh
+  · split at hfresh
+    · cases hfresh
+    · rename_i _ hm
+      unfold minFreshStale at hm
+      rw [hf] at hm
+      simp only [Bool.and_eq_true, decide_eq_true_eq, not_and, Int.not_lt] at hm
+      exact hm hpos
+
+/-- a min-fresh of 2^31 seconds or more — however many digits — is answered from the store only with 2^31 seconds left -/
+theorem huge_min_fresh_never_wraps (g : Glue) (now : Int) (e : Entry) (reqCC resCC : Directives) (s : Str) (f : Int)
+    (hs : parseDeltaSeconds s = some f) (hbig : 2147483648 ≤ natOfDigits s) (hf : reqCC.minFresh = some f)
+    (hfresh : (calculateFreshness g now e reqCC resCC).isStale = false) :
+    2147483648 * nsPerSec ≤ requestLifetime (responseLifetime g e resCC) reqCC - currentAge g now e := by
+  have hl := (delta_seconds_large s f hs).2
+  have hmin : min ((natOfDigits s : Nat) : Int) 2147483648 = 2147483648 := by omega
+  rw [hmin] at hl
+  have hpos : 0 < f := by unfold nsPerSec at hl; omega
+  have := min_fresh_is_honoured g now e reqCC resCC f hf hpos hfresh
+  omega
+
+example : parseDeltaSeconds (str% "99999999999999999999") = some 9223372036000000000 := by decide
+
 /-- Regression examples (tests) for the pinned tree's failures. -/
 example : (parseCC [(sCacheControl, str% "No-Store")]).noStore = true := by decide
 example : (parseCC [(sCacheControl, str% "max-age=5"), (sCacheControl, str% "no-store")]).noStore = true := by decide
